@@ -44,6 +44,7 @@ struct World::Saved
     uint64_t uniq = 0;
     int64_t clock = 0;
     FullObs prev;
+    std::set<std::string> seen_paths;
 };
 
 void World::save_state(Saved& s)
@@ -59,6 +60,7 @@ void World::save_state(Saved& s)
     s.uniq = uniq;
     s.clock = g_sim_clock;
     s.prev = prev;
+    s.seen_paths = seen_paths;
 }
 
 bool World::restore_state(const Saved& s)
@@ -79,6 +81,7 @@ bool World::restore_state(const Saved& s)
     for (auto& p : s.cslots)
         crates.push_back({std::nullopt, p.first, p.second});
     uniq = s.uniq;
+    seen_paths = s.seen_paths;
     g_sim_clock = s.clock;
     size_t nv = viols.size();
     if (!reload())
